@@ -167,7 +167,7 @@ SHAPES = {
 }
 HEADERS = ["none", "own-message", "same-message", "own-message-after-body", "in-and-out"]
 FAULTS = ["none", "one", "two"]
-PLACEMENTS = ["inline", "xs-import", "wsdl-import-xsd", "wsdl-import-wsdl", "two-inline"]
+PLACEMENTS = ["inline", "xs-import", "wsdl-import-xsd", "wsdl-import-wsdl", "two-inline", "wsdl-import-wsdl-split"]
 NS_MODES = ["distinct", "same"]
 FORMS = ["qualified", "unqualified"]
 ACTIONS = ["per-op", "empty", "absent", "url", "first-only"]
@@ -232,7 +232,7 @@ def build(*, n_ops=1, style="document", style_on="binding", shapes=None, header=
     data = XSchema(data_ns, "d", form, file="data.xsd" if placement in ("xs-import", "wsdl-import-xsd") else None)
     w.schemas.append(data)
     aux = None
-    if placement == "two-inline":
+    if placement in ("two-inline", "wsdl-import-wsdl-split"):
         aux = XSchema("urn:aux", "x", form)
         w.schemas.append(aux)
 
@@ -404,7 +404,7 @@ def render(w: Wsdl) -> dict[str, str]:
     # types
     types = ""
     imports = ""
-    if w.placement in ("inline", "two-inline", "wsdl-import-wsdl"):
+    if w.placement in ("inline", "two-inline", "wsdl-import-wsdl", "wsdl-import-wsdl-split"):
         types = f"<{P}types>" + "".join(render_schema(s, False) for s in w.schemas) + f"</{P}types>"
     elif w.placement == "xs-import":
         s = w.schemas[0]
@@ -458,7 +458,13 @@ def render(w: Wsdl) -> dict[str, str]:
         ports += f'<{P}port name="{w.port}12" binding="tns:{w.binding}12"><soap12:address location="{I.esc_attr(soap12_location(w))}"/></{P}port>'
     svc = f'<{P}service name="{w.service}">{ports}</{P}service>'
 
-    if w.placement == "wsdl-import-wsdl":
+    if w.placement == "wsdl-import-wsdl-split":
+        # both documents carry an inline schema: the request elements with the abstract part, the response elements with the main one
+        t_abs = f"<{P}types>" + render_schema(w.schemas[0], False) + f"</{P}types>"
+        t_main = f"<{P}types>" + "".join(render_schema(s, False) for s in w.schemas[1:]) + f"</{P}types>"
+        files["abstract.wsdl"] = head.replace('name="Svc"', 'name="SvcAbstract"') + t_abs + "".join(msgs) + "".join(pt) + f"</{P}definitions>"
+        files["svc.wsdl"] = head + f'<{P}import namespace="{w.tns}" location="abstract.wsdl"/>' + t_main + "".join(bd) + svc + f"</{P}definitions>"
+    elif w.placement == "wsdl-import-wsdl":
         # abstract part (types, messages, portType) in a second WSDL of the same namespace; binding + service in the main one
         files["abstract.wsdl"] = head.replace('name="Svc"', 'name="SvcAbstract"') + types + "".join(msgs) + "".join(pt) + f"</{P}definitions>"
         files["svc.wsdl"] = head + f'<{P}import namespace="{w.tns}" location="abstract.wsdl"/>' + "".join(bd) + svc + f"</{P}definitions>"
